@@ -320,8 +320,31 @@ func run(r *vt.Run, t vt.TB, s spec) {
 			}
 			c := tm.baseCols()
 			e := map[int]string{0: "NULL, x, 'bulk'||x", 1: "x, 'y'||x", 2: fmt.Sprintf("'b%d-'||x, x", o.B)}[tm.kind]
-			exec(fmt.Sprintf("WITH RECURSIVE c(x) AS (SELECT 1 UNION ALL SELECT x+1 FROM c WHERE x < %d) INSERT OR IGNORE INTO %s (%s) SELECT %s FROM c", n, tm.name, strings.Join(c, ", "), e))
+			pcBefore := int(query("PRAGMA page_count")[0][0].I)
+			grown := exec(fmt.Sprintf("WITH RECURSIVE c(x) AS (SELECT 1 UNION ALL SELECT x+1 FROM c WHERE x < %d) INSERT OR IGNORE INTO %s (%s) SELECT %s FROM c", n, tm.name, strings.Join(c, ", "), e))
 			history = append(history, fmt.Sprintf("bulk%d:%s", n, tm.name))
+			if grown && !w2open && (o.A+o.B)%3 == 0 && int(query("PRAGMA page_count")[0][0].I) > pcBefore {
+				// the writer was one from before SQLite 3.7.0: it moves the
+				// change counter and leaves the in-header size (28) and
+				// version-valid-for (92) as they were, so the header names
+				// fewer pages than the file has. SQLite goes by the file size
+				// then (pager.c: the in-header size counts only when 92 equals
+				// the change counter); the next write by a newer SQLite puts
+				// both fields right again.
+				if f, err := os.OpenFile(path, os.O_RDWR, 0); err == nil {
+					var cc, b [4]byte
+					f.ReadAt(cc[:], 24)
+					binary.BigEndian.PutUint32(b[:], uint32(pcBefore))
+					f.WriteAt(b[:], 28)
+					binary.BigEndian.PutUint32(b[:], binary.BigEndian.Uint32(cc[:])-1)
+					f.WriteAt(b[:], 92)
+					f.Close()
+					history = append(history, fmt.Sprintf("(header left as by a pre-3.7.0 writer: size %d)", pcBefore))
+					classes["file-grown-by-a-writer-that-leaves-the-in-header-size-stale"] = true
+				} else {
+					r.Harness(t, "stale in-header size: %v", err)
+				}
+			}
 			note("growth")
 			note("dml")
 		case "update", "update-grow":
